@@ -629,6 +629,9 @@ type c19ServerOut struct {
 	interval int // Telemetry.IntervalSeconds as Server.Start sees it
 }
 
+// c19LateProg: a programmatic assignment to Config.Telemetry.Enabled made AFTER server.New and before Start.
+var c19LateProg string
+
 func c19WithTimeout(d time.Duration, f func()) bool {
 	done := make(chan struct{})
 	go func() { defer close(done); f() }()
@@ -731,6 +734,13 @@ func c19RunServer(c c19Case, slot int, plant bool, window time.Duration, mustBeS
 	defer uninstall()
 	out.from = time.Now()
 	s := New(cfg)
+	// the embedding program may still change its configuration between New and Start (the object is shared)
+	switch c19LateProg {
+	case "true":
+		cfg.Telemetry.Enabled = true
+	case "false":
+		cfg.Telemetry.Enabled = false
+	}
 	var startErr error
 	if !c19WithTimeout(30*time.Second, func() { startErr = s.Start() }) {
 		out.err = "Server.Start did not return within 30s"
@@ -1353,4 +1363,41 @@ func c19DurBucket(d time.Duration) string {
 		return "ms"
 	}
 	return "24h"
+}
+
+
+// TestVerifC19LateSwitch: the programmatic route once more, with the assignment made between server.New(cfg) and
+// Server.Start() - the configuration object is shared with the server, and Start is where telemetry begins. Oracle from
+// C19: switched off before Start => no request at all; the opposite order (off at New, on before Start) is only recorded.
+func TestVerifC19LateSwitch(t *testing.T) {
+	res := vNewResult("C19", "[switch between New and Start] real servers: telemetry enabled (default / file / env) when server.New runs, Config.Telemetry.Enabled = false assigned before Server.Start, recording transport for 1.5 s; "+
+		"oracle: no telemetry request at all; non-trivial = the configuration was enabled at New; distinct by case")
+	defer res.Write(t)
+	defer func() { c19LateProg = "" }()
+	cases := []c19Case{
+		{File: "-", Env: "-", Prog: "-"},
+		{File: "-", Env: "-", Prog: "true"},
+		{File: "true", Env: "-", Prog: "-", HasFile: true},
+		{File: "-", Env: "true", Prog: "-"},
+	}
+	for i, c := range cases {
+		c19LateProg = "false"
+		out := c19RunServer(c, i, false, 1500*time.Millisecond, true)
+		c19LateProg = ""
+		line := fmt.Sprintf("c19 late-switch file=%s env=%s prog-at-new=%s then Enabled=false before Start", c.File, c.Env, c.Prog)
+		res.Count(line, out.enabled)
+		res.Dist("late-switch")
+		if out.skipped != "" {
+			res.Note(line + ": skipped: " + out.skipped)
+			continue
+		}
+		if out.err != "" {
+			res.Fail(vFailure{Kind: "disagreement", Case: []string{line}, Detail: "harness could not run the server scenario: " + out.err})
+			continue
+		}
+		if n := len(out.reqs); n > 0 {
+			res.Fail(vFailure{Kind: "spec", Case: []string{line}, Impl: []string{string(out.reqs[0].Body)}, Tag: "telemetry-prog-ignored-after-new",
+				Detail: fmt.Sprintf("Config.Telemetry.Enabled was false when Server.Start ran, yet %d telemetry request(s) were made within 1.5 s", n)})
+		}
+	}
 }
